@@ -381,14 +381,28 @@ pub fn c01(ctx: &mut Ctx) {
                 let mut c = s.case.clone();
                 let mut u = c.uri.clone().into_bytes();
                 let start = if c.uri.starts_with("https://") { c.uri[8..].find('/').map(|p| p + 8).unwrap_or(0) } else { 0 };
-                match rng.below(4) {
+                match rng.below(6) {
+                    4 | 5 => {
+                        // edit, duplicate or delete a header that is not an authentication input
+                        let idx: Vec<usize> = c.headers.iter().enumerate().filter(|(_, (n, _))| !["authorization", "x-amz-date", "date", "x-amz-security-token", "content-type"].contains(&n.to_ascii_lowercase().as_str())).map(|(i, _)| i).collect();
+                        if idx.is_empty() {
+                            continue;
+                        }
+                        let h = *rng.pick(&idx);
+                        match rng.below(4) {
+                            0 => { let v = &mut c.headers[h].1; let p = rng.below(v.len() + 1); v.insert(p, *rng.pick(b" ,;ab")); }
+                            1 => { let dup = c.headers[h].clone(); let at = rng.below(c.headers.len() + 1); c.headers.insert(at, dup); }
+                            2 => { c.headers.remove(h); }
+                            _ => { let v = &mut c.headers[h].1; if !v.is_empty() { let p = rng.below(v.len()); v.remove(p); } }
+                        }
+                    }
                     0 => { let p = start + rng.below(u.len() - start + 1); u.insert(p, *rng.pick(b"=&+%2F;/.aA~:@")); }
                     1 => { if u.len() > start + 1 { let p = start + 1 + rng.below(u.len() - start - 1); u.remove(p); } }
                     2 => { if u.len() > start + 1 { let p = start + 1 + rng.below(u.len() - start - 1); u[p] = *rng.pick(b"=&+%2Ff;/.aA~"); } }
                     _ => { if !c.body.is_empty() { let p = rng.below(c.body.len()); c.body[p] = *rng.pick(b"=&+%2Ffa"); } else { c.body.push(b'='); } }
                 }
                 c.uri = String::from_utf8_lossy(&u).to_string();
-                if c.uri == s.case.uri && c.body == s.case.body {
+                if c.uri == s.case.uri && c.body == s.case.body && c.headers == s.case.headers {
                     continue;
                 }
                 let expect = match wire_expected_signature(&s, &l, &c) {
